@@ -35,7 +35,7 @@ ASSUMPTIONS = [
 ]
 
 BASE = dict(seqid="c1", source="s1", featuretype="exon", start=10, end=50, score=".", strand="+", frame=".")
-COLVARS = ({}, {"start": 11}, {"source": "s2"}, {"strand": "-"}, {"start": ".", "end": "."})      # last: undefined coordinates
+COLVARS = ({}, {"start": 11}, {"source": "s2"}, {"strand": "-"}, {"start": ".", "end": "."}, {"frame": "1"})      # undefined coordinates; only the frame differs
 ATTRVARS_Q = ({"tag": ["a"]}, {"tag": ["b"], "note": ["n", "n"]})          # one line naming the same value twice
 ATTRVARS_T = ATTRVARS_Q + ({"tag": ["a"], "note": ["n"]},)
 STRATS = [("error", ()), ("warning", ()), ("replace", ()), ("create_unique", ()),
